@@ -76,6 +76,20 @@ def gen_division(loader, check, replay_on=True, types=None):
                 return it.call(c, ["op", a, b, AT(op)], {}), [a, b]
             emit.run_emission(check, loader, f"ArithmeticOp.il_exec({op})", f"type={tname(t)} kinds=Variable,Variable", build,
                               replay_builder=(lambda sp, op=op: ["arith", op, sp[0], sp[1]]) if replay_on else None)
+    # operands of the same width but different signedness (what `a %= b` / `a /= b` build for an unsigned target and a signed source):
+    # the operator follows the node's own (result) type
+    for w in (32, 64):
+        for sa in (False, True):
+            for op in ("/", "%"):
+                ta, tb = (sa, w), (not sa, w)
+
+                def build_m(it, ta=ta, tb=tb, op=op):
+                    a, b = irkit.mk_operand(it, "Variable", ta, "a"), irkit.mk_operand(it, "Variable", tb, "b")
+                    x, y = a.ghost["den"], b.ghost["den"]
+                    it.ctx.assume(z3.And(y != 0, z3.Not(z3.And(x == z3.BitVecVal(1 << (ta[1] - 1), ta[1]), y == z3.BitVecVal(-1, ta[1])))) if ta[0] else y != 0)
+                    return it.call(c, ["op", a, b, AT(op)], {}), [a, b]
+                emit.run_emission(check, loader, f"ArithmeticOp.il_exec({op})", f"type(a)={tname(ta)} type(b)={tname(tb)} kinds=Variable,Variable", build_m,
+                                  replay_builder=(lambda sp, op=op: ["arith", op, sp[0], sp[1]]) if replay_on else None)
     c02.gen_callbacks(loader, check, [("Variable", "Variable")], replay_on, families=["div"])
 
 
